@@ -1175,12 +1175,15 @@ fn family_review(g: &mut G, rng: &mut Rng, thorough: bool) {
         g.probe();
         g.cleanup_spec(T0 + 2, &[61], &[7]);
         g.probe();
+        // 61 timed out although a complete FDT instance listing it arrived in between (seeded C17-5)
+        g.ctx.step(g.eng, "recv expect 0 n 2 C17:stalled-object-kept-after-timeout");
         // 62, 63 and instance 8 are still there
         let p = mk_pkt(62, None, 16, 8, false, 0, 0, 2, vec![1; 16], false, None);
         g.push(&p, T0 + 3);
         g.push(&pb, T0 + 3);
         g.sleep(90);
         g.cleanup_spec(T0 + 4, &[62, 63], &[8]);
+        g.ctx.step(g.eng, "recv expect 0 n 0 C17:stalled-object-kept-after-timeout");
         g.end();
     }
 
@@ -1399,6 +1402,191 @@ fn family_review(g: &mut G, rng: &mut Rng, thorough: bool) {
         }
         g.cleanup(T0 + SEC, false);
         g.end();
+    }
+
+    // ---- C17 (seeded C17-5): an object stalls while NEW complete FDT instances keep arriving more often than
+    //      the object time-out (40 ms): the instances must not postpone it
+    {
+        g.cfg2("stalled-object-fdt-carousel", 2, false, true, 1 << 16, true, true, 0, false, 2);
+        g.ctx.nontrivial("stalled-object-fdt-carousel");
+        g.ctx.count("memory:stalled-object-fdt-carousel");
+        let p = mk_pkt(66, None, 16, 8, true, 160, 0, 0, vec![1; 16], false, None);
+        g.push(&p, T0);
+        for k in 0..5u32 {
+            g.sleep(25);
+            // instance k lists 66 for k = 0 (attached once), other files afterwards
+            let f = fdt_xml(&far(3), &[((if k == 0 { 66 } else { 300 + k }).to_string(), 160)], 16, 8);
+            for pk in fdt_pkts(&f, 20 + k, 512, None) {
+                g.push(&pk, T0 + 1 + k as i64);
+            }
+        }
+        // 125 ms after its last packet
+        g.cleanup_spec(T0 + 10, &[66], &[]);
+        g.ctx.step(g.eng, "recv expect 0 n 0 C17:stalled-object-kept-after-timeout");
+        g.end();
+    }
+
+    // ---- C17 (seeded C17-7): FDT-only traffic through the MultiReceiver (oracle only)
+    {
+        g.cfg2("multireceiver-fdt-only", 0, false, true, 1 << 16, true, true, 0, false, 0);
+        g.ctx.count("memory:multireceiver-fdt-only");
+        g.ctx.step(g.eng, &format!("recv mr2 {}", if thorough { 2000 } else { 400 }));
+        g.ctx.end_case(g.eng);
+    }
+
+    // ---- C19 (seeded C19-6): the clock offset is a property of ONE FDT instance.  Receiver clock 1 h ahead /
+    //      behind; instance 1 carries EXT_TIME, instance 2 (valid 30 s) carries none: instance 2 is judged on
+    //      the receiver's own clock
+    for (k, skew_s) in [3600i64, -3600].iter().enumerate() {
+        let skew = *skew_s * SEC;
+        g.cfg2(&format!("sct-then-no-sct-{}", k), 0, false, true, 1 << 16, true, true, skew, false, 0);
+        g.ctx.nontrivial(&format!("sct-then-no-sct {}", k));
+        g.ctx.count("expiry:sct-then-no-sct");
+        let f1 = fdt_xml(&far(4), &[("71".to_string(), 40)], 16, 8);
+        for (i, p) in fdt_pkts(&f1, 1, 64, Some(T0)).iter().enumerate() {
+            g.push(p, T0 + i as i64 + skew);
+        }
+        for p in obj_pkts(71, 40, 16, 8, false, false) {
+            g.push(&p, T0 + SEC + skew);
+        }
+        // instance 2: Expires = T0 + 30 s (or + 2 h for the receiver that is behind), no EXT_TIME
+        let exp2 = if skew > 0 { T0 + 30 * SEC } else { T0 - 1800 * SEC };
+        let f2 = fdt_xml(&ntp_secs(exp2).to_string(), &[("72".to_string(), 40)], 16, 8);
+        for (i, p) in fdt_pkts(&f2, 2, 64, None).iter().enumerate() {
+            g.push(p, T0 + 2 * SEC + i as i64 + skew);
+        }
+        g.probe();
+        for p in obj_pkts(72, 40, 16, 8, false, false) {
+            g.push(&p, T0 + 3 * SEC + skew);
+        }
+        g.expect_c(71, 40, "C19");
+        if skew > 0 {
+            // own clock = T0 + 1 h > Expires: 72 must stay silent (with the inherited offset it would be delivered)
+            g.expect_s(72, "C19");
+        } else {
+            // own clock = T0 - 1 h < Expires = T0 - 30 min: unexpired on the only clock this instance has
+            // (with the inherited offset, sender time T0 > Expires, it would be dropped)
+            g.expect_c(72, 40, "C19:no-sct-instance-judged-on-foreign-offset");
+        }
+        g.end();
+    }
+
+    // ---- C02 / C19 (seeded C02-7): an object listed only by an OLDER, still valid instance is delivered
+    for once in [true, false] {
+        g.cfg2(&format!("older-fdt-lists-object-once{}", once as u8), 0, false, true, 1 << 16, once, true, 0, false, 0);
+        g.ctx.nontrivial(&format!("older-fdt-lists-object {}", once));
+        g.ctx.count("expiry:older-fdt-lists-object");
+        let f1 = fdt_xml(&far(5), &[("81".to_string(), 40)], 16, 8);
+        for (i, p) in fdt_pkts(&f1, 1, 64, Some(T0)).iter().enumerate() {
+            g.push(p, T0 + i as i64);
+        }
+        let f2 = fdt_xml(&far(6), &[("82".to_string(), 40)], 16, 8);
+        for (i, p) in fdt_pkts(&f2, 2, 64, Some(T0 + SEC)).iter().enumerate() {
+            g.push(p, T0 + SEC + i as i64);
+        }
+        let f3 = fdt_xml(&far(7), &[("83".to_string(), 40)], 16, 8);
+        for (i, p) in fdt_pkts(&f3, 3, 64, Some(T0 + 2 * SEC)).iter().enumerate() {
+            g.push(p, T0 + 2 * SEC + i as i64);
+        }
+        g.probe();
+        for toi in [81u128, 82, 83] {
+            for p in obj_pkts(toi, 40, 16, 8, false, false) {
+                g.push(&p, T0 + 3 * SEC);
+            }
+        }
+        for toi in [81u128, 82, 83] {
+            g.expect_c(toi, 40, "C19:listed-by-older-valid-fdt-not-delivered");
+            g.expect_c(toi, 40, "C02:listed-by-older-valid-fdt-not-delivered");
+        }
+        g.end();
+    }
+
+    // ---- C04 (seeded C04-5): EXT_FTI and FDT disagree on the transfer length.  The object is partitioned from the
+    //      EXT_FTI (5 blocks), the FDT that arrives later announces less (or more); then packets for blocks
+    //      that were not initialised yet, in and beyond either length
+    for (k, (l_fti, l_fdt)) in [(160usize, 40usize), (160, 33), (40, 160), (160, 0)].iter().enumerate() {
+        g.cfg2(&format!("fdt-fti-length-mismatch-{}", k), 2, false, true, 1 << 16, true, true, 0, false, 0);
+        g.ctx.nontrivial(&format!("fdt-fti-length-mismatch {}", k));
+        g.ctx.count("malformed:fdt-fti-length-mismatch");
+        let p = mk_pkt(90, None, 16, 2, true, *l_fti as u64, 0, 0, vec![1; 16], false, None);
+        g.push(&p, T0);
+        // Content-Length = what the EXT_FTI partition delivers (the length check of e19fa2b is not the subject)
+        let f = String::from_utf8(fdt_xml(&far(8), &[("90".to_string(), *l_fdt)], 16, 2)).unwrap().replace(&format!("Content-Length=\"{}\"", l_fdt), &format!("Content-Length=\"{}\"", l_fti)).into_bytes();
+        for pk in fdt_pkts(&f, 1, 512, None) {
+            g.push(&pk, T0 + 1);
+        }
+        for (i, sbn) in [4u32, 3, 2, 1, 0, 5, 9].iter().enumerate() {
+            for esi in [1u32, 0] {
+                let p = mk_pkt(90, None, 16, 2, i % 2 == 0, *l_fti as u64, *sbn, esi, vec![1; 16], false, None);
+                g.push(&p, T0 + 2 + i as i64);
+            }
+        }
+        g.cleanup(T0 + SEC, false);
+        g.end();
+    }
+
+    // ---- C04 (seeded C04-6): the FEC OTI arrives through the FDT XML (not EXT_FTI) and asks for source
+    //      blocks beyond the code's maximum; then ONE object packet without EXT_FTI.  Child process.
+    for (name, fec, b, ssi, ss) in [("raptorq", 6u8, 56404u32, "AQABBA==", (1u8, 1u32, 1u32, 4u32)), ("raptor", 1, 8193, "AAEBBA==", (2, 1, 1, 4)),
+                                    ("raptorq-ok", 6, 56403, "AQABBA==", (1, 1, 1, 4)), ("raptor-ok", 1, 8192, "AAEBBA==", (2, 1, 1, 4))] {
+        g.cfg2(&format!("fdt-oti-kmax-{}", name), 2, false, true, 1 << 16, true, true, 0, false, 0);
+        g.ctx.nontrivial(&format!("fdt-oti-kmax {}", name));
+        g.ctx.count("malformed:fdt-oti-kmax");
+        let tl = b as u64 * 4;
+        let xml = format!(
+            "<?xml version=\"1.0\" encoding=\"UTF-8\"?>\n<FDT-Instance xmlns=\"urn:IETF:metadata:2005:FLUTE:FDT\" Expires=\"{}\">\n  <File Content-Location=\"file:///k\" TOI=\"95\" Content-Length=\"{}\" Transfer-Length=\"{}\" FEC-OTI-FEC-Encoding-ID=\"{}\" FEC-OTI-Maximum-Source-Block-Length=\"{}\" FEC-OTI-Encoding-Symbol-Length=\"4\" FEC-OTI-Scheme-Specific-Info=\"{}\"/>\n</FDT-Instance>\n",
+            far(9), tl, tl, fec, b, ssi
+        );
+        let mut ds: Vec<String> = fdt_pkts(xml.as_bytes(), 1, 1024, None).iter().map(|d| hex(d)).collect();
+        if let Some(oti) = hk::make_oti(fec, 0, b, 4, 0, Some(ss), false) {
+            for esi in 0..2u32 {
+                let p = hk::PktFields { payload: vec![9; 4], transfer_length: tl, esi, sbn: 0, toi: 95, fdt_id: None, cenc: Cenc::Null, inband_cenc: false,
+                                        close_object: false, source_block_length: 0, sender_current_time: false };
+                if let Ok(d) = guarded(|| hk::new_alc_pkt(&oti, &0u128, TSI, &p, false, st(T0))) {
+                    ds.push(hex(&d));
+                }
+            }
+        }
+        g.ctx.step(g.eng, &format!("recv iso {} {}", T0, ds.join(",")));
+        g.ctx.end_case(g.eng);
+    }
+
+    // ---- C04 (seeded C04-7): the codepoint of a packet and the OTI of its object disagree.  The object is
+    //      established with one scheme (EXT_FTI), then datagrams for it arrive under ANOTHER codepoint, without
+    //      EXT_FTI and with fewer bytes after the LCT header than the object's payload-id needs
+    for (fec_obj, par, ss) in [(129u8, 4u32, None), (0, 0, None), (5, 4, None), (6, 0, Some((1u8, 1u32, 1u32, 4u32))), (1, 0, Some((2, 1, 1, 4)))] {
+        let oti = match hk::make_oti(fec_obj, 0, 10, 16, par, ss, true) {
+            Some(o) => o,
+            None => continue,
+        };
+        g.cfg2(&format!("codepoint-vs-oti-{}", fec_obj), 2, false, true, 1 << 16, true, true, 0, false, 0);
+        g.ctx.nontrivial(&format!("codepoint-vs-oti {}", fec_obj));
+        g.ctx.count("malformed:codepoint-vs-oti");
+        let mut ds: Vec<String> = Vec::new();
+        let first = hk::PktFields { payload: vec![3; 16], transfer_length: 160, esi: 0, sbn: 0, toi: 96, fdt_id: None, cenc: Cenc::Null, inband_cenc: false,
+                                    close_object: false, source_block_length: 10, sender_current_time: false };
+        if let Ok(d) = guarded(|| hk::new_alc_pkt(&oti, &0u128, TSI, &first, false, st(T0))) {
+            ds.push(hex(&d));
+        }
+        for fec_pkt in [0u8, 1, 5, 6, 129] {
+            if fec_pkt == fec_obj {
+                continue;
+            }
+            let ss2 = match fec_pkt { 6 => Some((1u8, 1u32, 1u32, 4u32)), 1 => Some((2, 1, 1, 4)), _ => None };
+            let o2 = match hk::make_oti(fec_pkt, 0, 10, 16, if fec_pkt == 5 || fec_pkt == 129 { 4 } else { 0 }, ss2, false) {
+                Some(o) => o,
+                None => continue,
+            };
+            for pl in [0usize, 1, 3, 4, 16] {
+                let p = hk::PktFields { payload: vec![4; pl], transfer_length: 160, esi: 1, sbn: 0, toi: 96, fdt_id: None, cenc: Cenc::Null, inband_cenc: false,
+                                        close_object: false, source_block_length: 10, sender_current_time: false };
+                if let Ok(d) = guarded(|| hk::new_alc_pkt(&o2, &0u128, TSI, &p, false, st(T0))) {
+                    ds.push(hex(&d));
+                }
+            }
+        }
+        g.ctx.step(g.eng, &format!("recv iso {} {}", T0, ds.join(",")));
+        g.ctx.end_case(g.eng);
     }
 
     // ---- C17 (seeded C17-4): idle sessions with a pending object at the MultiReceiver (oracle only)
